@@ -7,6 +7,7 @@ mod c14_reloc;
 mod c18_ffi;
 mod c20_waitset;
 mod c15_alloc;
+mod c15_resize;
 mod c16_vec;
 mod c19_names;
 mod c16_queue;
@@ -61,6 +62,7 @@ fn main() {
         "ffi" => go!(c18_ffi::generate, || c18_ffi::FfiComp::new()),
         "relptr" => go!(c14_reloc::generate, || c14_reloc::RelPtrComp::new()),
         "zcc" => go!(c08_zcc::generate, || c08_zcc::ZccComp::new()),
+        "resize" => go!(c15_resize::generate, || c15_resize::ResizeComp::new()),
         "alloc" => go!(c15_alloc::generate, || c15_alloc::AllocComp::new()),
         "names" => go!(c19_names::generate, || c19_names::NamesComp::new()),
         "vec" => go!(c16_vec::generate, || c16_vec::VecComp::new()),
